@@ -139,6 +139,13 @@ def semRef (start : Bytes) (v : Visit Attr) (p : Prim) (s : ES) : Bool × ES :=
   | .execMulti _ dir _ _ _ =>
     let (arg, cwd) := if dir then dirArgRef start v.ent.rpath else (path, none)
     (true, { s with gs := { s.gs with execs := s.gs.execs ++ [⟨[arg], cwd⟩] } })
+  | .delete =>
+    -- the reference only records where the action is reached: the path, then (for a real
+    -- directory, marked by cwd = some []) the paths of its entries
+    let ev : ExecEvent := match v.ent.node with
+      | .dir _ false _ _ kids => ⟨path :: kids.map fun k => pushName path k.name, some []⟩
+      | _ => ⟨[path], none⟩
+    (true, { s with gs := { s.gs with execs := s.gs.execs ++ [ev] } })
   | p => sem start v p s
 
 def evalRefEntryX (l : List (List (List XP))) (start : Bytes) (v : Visit Attr) (g : GS) : EvalOut × GS :=
